@@ -468,17 +468,101 @@ def m_iter_identity(sim, st, c):
     return c["args"][0]
 
 
-@pattern(r"^<std::slice::Iter(Mut)?<'a, T> as std::iter::Iterator>::next$")
+def iter_step(sim, st, it):
+    """Advance an abstract iterator value: returns (new iterator, item or None)."""
+    it = sim.resolve(st, it)
+    if not isinstance(it, Opaque):
+        raise S.Unsupported("next on %r" % (it,))
+    if it.kind == "SliceIter":
+        base, i, n, mut = it.data
+        if i < n:
+            return Opaque("SliceIter", (base, i + 1, n, mut)), Ref(base.ext(("i", i)), mut)
+        return it, None
+    if it.kind == "RevSliceIter":
+        base, i, n, mut = it.data
+        if i < n:
+            return Opaque("RevSliceIter", (base, i, n - 1, mut)), Ref(base.ext(("i", n - 1)), mut)
+        return it, None
+    if it.kind == "Take":
+        inner, k = it.data
+        if k <= 0:
+            return it, None
+        inner2, item = iter_step(sim, st, inner)
+        return Opaque("Take", (inner2, k - 1 if item is not None else 0)), item
+    if it.kind == "Skip":
+        inner, k = it.data
+        while k > 0:
+            inner, item = iter_step(sim, st, inner)
+            if item is None:
+                return Opaque("Skip", (inner, 0)), None
+            k -= 1
+        inner2, item = iter_step(sim, st, inner)
+        return Opaque("Skip", (inner2, 0)), item
+    if it.kind == "Enumerate":
+        inner, k = it.data
+        inner2, item = iter_step(sim, st, inner)
+        if item is None:
+            return Opaque("Enumerate", (inner2, k)), None
+        return Opaque("Enumerate", (inner2, k + 1)), Struct(tuple_ty([prim("usize"), None]), (Const(k, prim("usize")), item))
+    if it.kind == "Copied":
+        inner2, item = iter_step(sim, st, it.data[0])
+        if item is None:
+            return Opaque("Copied", (inner2,)), None
+        return Opaque("Copied", (inner2,)), deref_arg(sim, st, item)
+    raise S.Unsupported("next on %r" % (it,))
+
+
+@pattern(r"^<std::(slice::Iter(Mut)?<'a, T>|iter::(Take|Skip|Enumerate|Rev|Copied|Cloned)<I>) as std::iter::Iterator>::next$")
 def m_slice_iter_next(sim, st, c):
     p = sim.deref_value(st, c["args"][0])
     it = sim.read(st, p)
-    if not (isinstance(it, Opaque) and it.kind == "SliceIter"):
-        raise S.Unsupported("next on %r" % (it,))
-    base, i, n, mut = it.data
-    if i < n:
-        sim.write(st, p, Opaque("SliceIter", (base, i + 1, n, mut)))
-        return opt(sim, c["ret_ty"], Ref(base.ext(("i", i)), mut))
-    return opt(sim, c["ret_ty"])
+    if isinstance(it, Struct) and it.ty and is_adt(it.ty, "Range"):
+        return m_range_next(sim, st, c)
+    it2, item = iter_step(sim, st, it)
+    sim.write(st, p, it2)
+    return opt(sim, c["ret_ty"], item) if item is not None else opt(sim, c["ret_ty"])
+
+
+@pattern(r"^std::slice::<impl \[T\]>::iter(_mut)?$")
+def m_slice_iter(sim, st, c):
+    r = sim.resolve(st, c["args"][0])
+    base, a, b = slice_bounds(sim, st, r)
+    return Opaque("SliceIter", (base, a, b, c["fn"]["name"] == "iter_mut"))
+
+
+def const_usize(sim, st, v, what):
+    v = sim.resolve(st, v)
+    if not (isinstance(v, Const) and isinstance(v.val, int)):
+        raise S.Unsupported("symbolic count in " + what)
+    return v.val
+
+
+@model("std::iter::Iterator::take")
+def m_iter_take(sim, st, c):
+    return Opaque("Take", (c["args"][0], const_usize(sim, st, c["args"][1], "take")))
+
+
+@model("std::iter::Iterator::skip")
+def m_iter_skip(sim, st, c):
+    return Opaque("Skip", (c["args"][0], const_usize(sim, st, c["args"][1], "skip")))
+
+
+@model("std::iter::Iterator::enumerate")
+def m_iter_enumerate(sim, st, c):
+    return Opaque("Enumerate", (c["args"][0], 0))
+
+
+@model("std::iter::Iterator::copied", "std::iter::Iterator::cloned")
+def m_iter_copied(sim, st, c):
+    return Opaque("Copied", (c["args"][0],))
+
+
+@model("std::iter::Iterator::rev")
+def m_iter_rev(sim, st, c):
+    it = sim.resolve(st, c["args"][0])
+    if isinstance(it, Opaque) and it.kind == "SliceIter":
+        return Opaque("RevSliceIter", it.data)
+    raise S.Unsupported("rev on %r" % (it,))
 
 
 @pattern(r"^std::iter::range::<impl std::iter::Iterator for std::ops::Range<A>>::next$")
